@@ -393,6 +393,45 @@ def isExcluded (s : Session) (p : Path) : Bool := (configExclude s.root s.userEx
 def unknownPaths (s : Session) (fs : FTree) : List Path :=
   findAllUnknown fs (isKnown s) (isExcluded s) s.paths s.directories
 
+/-! ## §3b the project root (`config_utils.find_project_root_and_config`) -/
+
+/-- One stop rule of the upward search at directory `d`: `some (root, config)` when it fires. `hasSection cfg` says
+that the file `cfg` parses and has the `tool.pytask.ini_options` section (an input of the model). -/
+def stopRule (fs : FTree) (hasSection : Path → Bool) (d : Path) (rule : String × String) : Option (Path × Option Path) :=
+  let entry := d ++ [rule.1.toList]
+  match subtree fs entry with
+  | none => none
+  | some t =>
+    if rule.2 == "section" then (if hasSection entry then some (d, some entry) else none)
+    else if rule.2 == "exists" then some (d, none)
+    else if rule.2 == "is_dir" then (if t.isDir then some (d, none) else none)
+    else if rule.2 == "is_file" then (if t.isDir then none else some (d, none))
+    else none
+
+/-- The body of the loop for one directory: the rules in source order, the first that fires wins. -/
+def stopAt (fs : FTree) (hasSection : Path → Bool) (d : Path) : List (String × String) → Option (Path × Option Path)
+  | [] => none
+  | r :: rs =>
+    match stopRule fs hasSection d r with
+    | some x => some x
+    | none => stopAt fs hasSection d rs
+
+def searchUp (fs : FTree) (hasSection : Path → Bool) : List Path → Option (Path × Option Path)
+  | [] => none
+  | d :: ds =>
+    match stopAt fs hasSection d Generated.rootStopRules with
+    | some x => some x
+    | none => searchUp fs hasSection ds
+
+/-- `find_project_root_and_config(paths)` where `common` is `os.path.commonpath(paths)` (the working directory when
+no path is given): root and configuration file. -/
+def findRoot (fs : FTree) (hasSection : Path → Bool) (common : Path) : Path × Option Path :=
+  let start :=
+    match subtree fs common with
+    | some (.file _) => if Generated.rootStartsAtParentOfFile then common.dropLast else common
+    | _ => common
+  (searchUp fs hasSection (start :: (parents start).reverse)).getD (start, none)
+
 /-! ## §4 the command -/
 
 inductive Mode where
